@@ -993,6 +993,68 @@ func (s *service) getValidators(txes ...dbft.Transaction[util.Uint256]) []dbft.P
 	err = ErrKeyNotFound
 	return
 }""")])]),
+ # batch 10: variants for the rules of round 10
+ ("r11-notary-charge-local", ["C05"], "Notary.OnPersist: the charged amount through a local",
+  [("pkg/core/native/notary.go", [("""				balance.Amount.Sub(balance.Amount, big.NewInt(tx.SystemFee+tx.NetworkFee))""", """				charged := big.NewInt(tx.NetworkFee + tx.SystemFee)
+				balance.Amount.Sub(balance.Amount, charged)""")])]),
+ ("r11-addtokens-delete-else-flat", ["C05"], "addTokens: the store of the record written without else",
+  [("pkg/core/native/native_nep17.go", [("""	if si == nil {
+		ic.DAO.DeleteStorageItem(c.ID, key)
+	} else {
+		ic.DAO.PutStorageItem(c.ID, key, si)
+	}
+
+	buf, supply := c.getTotalSupply(ic.DAO)
+	supply.Add(supply, amount)
+	c.saveTotalSupply(ic.DAO, buf, supply)
+	return dist""", """	if si != nil {
+		ic.DAO.PutStorageItem(c.ID, key, si)
+	}
+	if si == nil {
+		ic.DAO.DeleteStorageItem(c.ID, key)
+	}
+
+	buf, supply := c.getTotalSupply(ic.DAO)
+	supply.Add(supply, amount)
+	c.saveTotalSupply(ic.DAO, buf, supply)
+	return dist""")])]),
+ ("r11-convert-clone-local", ["C12", "C13"], "Array.Convert: the cloned elements through a local",
+  [("pkg/vm/stackitem/item.go", [("""		return NewStruct(slices.Clone(i.value)), nil""", """		elems := slices.Clone(i.value)
+		return NewStruct(elems), nil""")])]),
+ ("r11-deploy-caller-local", ["C15", "C16"], "callDeployDeferrable: the native's hash through a local",
+  [("pkg/core/native/management.go", [("""		err := contract.CallFromNative(ic, m.Hash, cs, manifest.MethodDeploy,""", """		self := m.Hash
+		err := contract.CallFromNative(ic, self, cs, manifest.MethodDeploy,""")])]),
+ ("r11-chainblock-reset-local", ["C19"], "handleChainBlock: the nanosecond time through a local",
+  [("pkg/consensus/consensus.go", [("""		s.dbft.Reset(b.Timestamp * nsInMs)""", """		tipTime := b.Timestamp * nsInMs
+		s.dbft.Reset(tipTime)""")])]),
+ ("r11-requesttx-sort-in-place", ["C19"], "RequestTx: the clone named differently",
+  [("pkg/network/server.go", [("""	var sorted = slices.Clone(hashes)
+	slices.SortFunc(sorted, util.Uint256.Compare)
+	s.txCbList.Store(sorted)""", """	awaited := slices.Clone(hashes)
+	slices.SortFunc(awaited, util.Uint256.Compare)
+	s.txCbList.Store(awaited)""")])]),
+ ("r11-equalstruct-charge-first", ["C13", "C12"], "equalStruct: the nested-struct test before the type test of byte arrays",
+  [("pkg/vm/stackitem/item.go", [("""			if *maxComparableSize == 0 {
+				panic(errTooBigComparable)
+			}
+			*maxComparableSize--
+			sa, oka := i.value[j].(*Struct)
+			sb, okb := s.value[j].(*Struct)
+			if oka && okb {""", """			sa, oka := i.value[j].(*Struct)
+			sb, okb := s.value[j].(*Struct)
+			if *maxComparableSize == 0 {
+				panic(errTooBigComparable)
+			}
+			*maxComparableSize--
+			if oka && okb {""")])]),
+ ("r11-shl-zero-guard-split", ["C13", "C12"], "SHL/SHR: the pre-Gorgon zero-shift test as two nested tests",
+  [("pkg/vm/vm.go", [("""		if !v.isHardforkEnabled(config.HFGorgon) && b == 0 {
+			return
+		}""", """		if b == 0 {
+			if !v.isHardforkEnabled(config.HFGorgon) {
+				return
+			}
+		}""")])]),
 ]
 
 out = "/verif/benign"
